@@ -45,6 +45,14 @@ class W:
     def shadowed(self, x):
         return 4
 
+    @staticmethod
+    def __sp(x):             # a private name: the attribute is _W__sp, the code object is called __sp
+        return 7
+
+    @staticmethod
+    def call_sp(x):
+        return W.__sp(x)
+
 
 def f_local(x):
     loc = Holder.make_local()      # a local whose finalizer journals: it must run when the call returns
@@ -104,7 +112,7 @@ def gc_prog(n):
     return out
 '''
 
-KINDS = ["module_function", "instance_method", "static_method", "unresolvable"]
+KINDS = ["module_function", "instance_method", "static_method", "unresolvable", "private_static_method"]
 ROLES = ["arg", "ret", "yield", "elem_list", "elem_tuple", "elem_dict_value", "elem_dict_key", "elem_set",
          "elem_defaultdict", "global_same_name", "global_other", "caller_local"]
 _ENV = {}
@@ -151,6 +159,8 @@ def _call_kind(M, kind, x):
         return M.W().m_arg(x)
     if kind == "static_method":
         return M.W.s_arg(x)
+    if kind == "private_static_method":
+        return M.W.call_sp(x)
     return M._HID["h"](x)
 
 
@@ -343,6 +353,53 @@ def run_ambient_scenario(sc):
             "flushes": life["flushes"], "escaped": life["escaped"]}
 
 
+def run_stock_logger_scenario(sc):
+    """The stock CallTraceStoreLogger over a counting store, many traced calls in one block: the store must be written
+    exactly once, when the block ends (never while the program runs)."""
+    env = _setup()
+    M, T = env["M"], env["T"]
+    import monkeytype.tracing as mtt
+    from monkeytype.db.base import CallTraceStore, CallTraceStoreLogger
+    path = env["path"]
+    T.ROLE[0] = "arg"
+
+    class CountingStore(CallTraceStore):
+        def __init__(self):
+            self.adds, self.inside, self.rows, self.in_block = 0, 0, 0, False
+
+        def add(self, traces):
+            traces = list(traces)
+            self.adds += 1
+            self.rows += len(traces)
+            if self.in_block:
+                self.inside += 1
+
+        def filter(self, module, qualname_prefix=None, limit=2000):
+            return []
+
+        @classmethod
+        def make_store(cls, connection_string):
+            return cls()
+
+        def list_modules(self):
+            return []
+    store = CountingStore()
+    logger = CallTraceStoreLogger(store)
+    before, escaped = sys.getprofile(), "NONE"
+    n = sc["calls"]
+    try:
+        with mtt.trace_calls(logger, 0, lambda code: code.co_filename == path):
+            store.in_block = True
+            for i in range(n):
+                M.f_arg(i)
+            store.in_block = False
+    except Exception as e:
+        escaped = type(e).__name__
+    obs = ["rows:%d" % store.rows, "writes_while_running:%d" % store.inside]
+    return {"tid": sc["tid"], "kind": "stock", "hooks": [], "obsU": ["rows:%d" % n, "writes_while_running:0"], "obsT": obs,
+            "prevOK": sys.getprofile() is before, "flushes": store.adds, "escaped": escaped}
+
+
 def _run_chunk(chunk):
     _setup()
     import logging
@@ -354,7 +411,7 @@ def _run_chunk(chunk):
     out = []
     for sc in chunk:
         out.append(run_hook_scenario(sc) if sc["type"] == "hooks" else run_ambient_scenario(sc) if sc["type"] == "ambient"
-                   else run_life_scenario(sc))
+                   else run_stock_logger_scenario(sc) if sc["type"] == "stock" else run_life_scenario(sc))
     return out
 
 
@@ -413,6 +470,11 @@ def main(pid, tier, seed, replay=None):
                 scs.append({"type": "ambient", "ambient": amb, "rate": rate})
         plan.append({"family": "ambient state: global random stream / locals() snapshot / lifetime of run-time functions x "
                                "sampling rate", "scenarios": len(scs) - n0})
+        n0 = len(scs)
+        for calls in ((1, 1200, 6000, 25000) if tier == "quick" else (1, 1200, 6000, 25000, 70000, 300000)):
+            scs.append({"type": "stock", "calls": calls})
+        plan.append({"family": "the stock CallTraceStoreLogger over a counting store, 1 .. many traced calls in one block: one "
+                               "write, at the end", "scenarios": len(scs) - n0})
         for i, s in enumerate(scs):
             s["tid"] = i + 1
     records = run_all(scs)
@@ -428,13 +490,15 @@ def main(pid, tier, seed, replay=None):
                     value_role = cell[0] in ("arg", "ret", "yield") or cell[0].startswith("elem_")
                     cause = ("metaclass_hook_of_a_value_class" if cell[1].startswith("meta.") and value_role else
                              "getattr_on_lookup_candidate" if cell[0] in ("global_same_name", "caller_local")
-                             or (sc.get("kind") == "unresolvable" and cell[0] == "arg"
+                             or (sc.get("kind") in ("unresolvable", "private_static_method") and cell[0] == "arg"
                                  and sc.get("proto") in ("getattribute", "getattr", "getattr_raises", "descriptor", "lazy_property", "meta_class"))
                              else "other")
                     vio = {"clause": clause, "role": cell[0], "hook": cell[1], "cause": cause}
                     if sc["type"] == "hooks" and sc["role"] in ("global_other",):
                         vio["function_kind"] = sc["kind"]
                     run.violation(vio, {k: v2 for k, v2 in sc.items() if k != "tid"})
+            elif sc["type"] == "stock":
+                run.violation({"clause": clause, "stock_logger_calls": sc["calls"]}, {k: v2 for k, v2 in sc.items() if k != "tid"})
             elif sc["type"] == "ambient":
                 run.violation({"clause": clause, "ambient": sc["ambient"], "sampled": sc["rate"] > 1},
                               {k: v2 for k, v2 in sc.items() if k != "tid"})
